@@ -271,13 +271,28 @@ impl VRemoteMap {
     pub fn sender_state(&self, id: &EndpointId) -> Option<bool> {
         self.0.sender_state(id)
     }
-    pub fn try_remote_info(&self, id: &EndpointId) -> Result<VInfoRx, &'static str> {
-        self.0.try_remote_info(id).map(VInfoRx)
+    /// Looks the inbox sender of `id` up in the read-only sender map (as other threads do).
+    pub fn sender(&self, id: &EndpointId) -> Option<VSender> {
+        self.0.sender(id).map(VSender)
     }
     pub fn cancel(&self) {
         self.0.cancel();
     }
     pub fn drop_watchable(&mut self) {
         self.0.drop_watchable();
+    }
+}
+
+/// A clone of an actor's inbox sender taken from the read-only sender map.
+#[derive(Clone)]
+pub struct VSender(rm::VSender);
+
+impl VSender {
+    /// `try_send`s a `RemoteInfo` query; `Err` is "full" or "closed".
+    pub fn try_remote_info(&self) -> Result<VInfoRx, &'static str> {
+        self.0.try_remote_info().map(VInfoRx)
+    }
+    pub fn is_closed(&self) -> bool {
+        self.0.is_closed()
     }
 }
